@@ -14,8 +14,8 @@ ASSUMPTIONS = [
     "a finite configuration space, exhausted path by path",
 ]
 _QUICK = [(0, 0, 0, 0), (1, 0, 0, 0), (2, 0, 0, 0), (0, 1, 1, 0), (1, 0, 1, 1), (0, 0, 0, 1)]
-# (each present VTIMEZONE adds a set.discard, and CrossHair's lazy set combinators cost ~2^depth: at most 4 in total)
-_ALL = [(a, b, c, d) for a in (0, 1, 2) for b in (0, 1, 2) for c in (0, 1, 2) for d in (0, 1) if a + b + c + d <= 4]
+# (each present VTIMEZONE adds a set.discard, and CrossHair's lazy set combinators cost ~2^depth: at most 2 in total in the thorough sweep, 3 in the quick configurations)
+_ALL = [(a, b, c, d) for a in (0, 1, 2) for b in (0, 1, 2) for c in (0, 1, 2) for d in (0, 1) if a + b + c + d <= 2]
 _W = "used == set of TZID params; missing == used - present; no query fails; add_missing_timezones closes exactly the known ids once; idempotent"
 _B = "slot tz choices: DTSTART 5 (pinned per shard), two RDATE entries 3 each, deep RECURRENCE-ID 3 (incl. unknown id and leading-slash id); VTIMEZONE counts per id (Vienna, New_York, unused Tokyo, unknown) = %s"
 
